@@ -1,38 +1,90 @@
-(* Soundness of the change detector for the membership kinds: every reported
-   removed/added/kind-changed element has a witness in the two schemas. *)
+(* Soundness of the change detector: every reported change has a decidable witness in the two
+   schemas (the element it names is present / absent / different as the change kind says). *)
 From GV Require Import Base.Prelude SchemaOps.Schema SchemaOps.Sort SchemaOps.Diff SchemaOps.DiffProps.
 
-(* decidable witness of a reported change; kinds not listed here are not constrained *)
 Definition in_not_in {A} (key : A -> name) (n : name) (l l' : list A) : bool :=
   has key n l && negb (has key n l').
 
-Definition with_types (a b : schema) (tn : name) (f : typedef -> typedef -> bool) : bool :=
-  match find_by t_name tn (s_types a), find_by t_name tn (s_types b) with
+(* both containers have an element of that name, and the two elements satisfy f *)
+Definition with2 {A} (key : A -> name) (n : name) (l l' : list A) (f : A -> A -> bool) : bool :=
+  match find_by key n l, find_by key n l' with
   | Some x, Some y => f x y
   | _, _ => false
   end.
 
-Definition witness (c : change) (a b : schema) : bool :=
-  match c_kind c, c_path c with
-  | 10, [t] => in_not_in t_name t (s_types a) (s_types b)                      (* TYPE_REMOVED *)
-  | 70, [t] => in_not_in t_name t (s_types b) (s_types a)                      (* TYPE_ADDED *)
-  | 50, [d] => in_not_in d_name d (s_directives a) (s_directives b)            (* DIRECTIVE_REMOVED *)
-  | 73, [d] => in_not_in d_name d (s_directives b) (s_directives a)            (* DIRECTIVE_ADDED *)
-  | 11, [t] => with_types a b t (fun x y => negb (t_kind x =? t_kind y))       (* TYPE_CHANGED_KIND *)
-  | 30, [t; f] => with_types a b t (fun x y =>                                 (* FIELD_REMOVED *)
-                    in_not_in f_name f (t_fields x) (t_fields y) || in_not_in a_name f (t_inputs x) (t_inputs y))
-  | 74, [t; f] => with_types a b t (fun x y => in_not_in f_name f (t_fields y) (t_fields x))   (* FIELD_ADDED *)
-  | 21, [t; v] => with_types a b t (fun x y => in_not_in e_name v (t_values x) (t_values y))   (* VALUE_REMOVED_FROM_ENUM *)
-  | 60, [t; v] => with_types a b t (fun x y => in_not_in e_name v (t_values y) (t_values x))   (* VALUE_ADDED_TO_ENUM *)
-  | 20, [t; m] => with_types a b t (fun x y => in_not_in idn m (t_members x) (t_members y))    (* TYPE_REMOVED_FROM_UNION *)
-  | 61, [t; m] => with_types a b t (fun x y => in_not_in idn m (t_members y) (t_members x))    (* TYPE_ADDED_TO_UNION *)
-  | 23, [t; i] => with_types a b t (fun x y => in_not_in idn i (t_ifaces x) (t_ifaces y))      (* IMPLEMENTED_INTERFACE_REMOVED *)
-  | 64, [t; i] => with_types a b t (fun x y => in_not_in idn i (t_ifaces y) (t_ifaces x))      (* IMPLEMENTED_INTERFACE_ADDED *)
-  | 22, [t; f] => with_types a b t (fun x y => in_not_in a_name f (t_inputs y) (t_inputs x))   (* REQUIRED_INPUT_FIELD_ADDED *)
-  | 62, [t; f] => with_types a b t (fun x y => in_not_in a_name f (t_inputs y) (t_inputs x))   (* OPTIONAL_INPUT_FIELD_ADDED *)
-  | _, _ => true
+Section Witness.
+Variable leb : name -> name -> bool.
+
+(* witness of a change between two persisted arguments *)
+Definition arg_witness (k : N) (o n : arg) : bool :=
+  match k with
+  | 42 | 79 => negb (tref_eqb (a_type o) (a_type n))           (* ARG_CHANGED_KIND(_SAFE) *)
+  | 65 => match a_default o, a_default n with                  (* ARG_DEFAULT_VALUE_CHANGE *)
+          | Some _, None => true
+          | Some x, Some y => negb (default_eqb leb x y)
+          | _, _ => false
+          end
+  | 80 => match a_default o, a_default n with None, Some _ => true | _, _ => false end
+  | 81 => negb (otext_eqb (a_desc o) (a_desc n))
+  | _ => false
   end.
 
+Definition witness (c : change) (a b : schema) : bool :=
+  let T := with2 t_name in
+  let ta := s_types a in let tb := s_types b in
+  let da := s_directives a in let db := s_directives b in
+  match c_kind c, c_path c with
+  | 10, [t] => in_not_in t_name t ta tb                                        (* TYPE_REMOVED *)
+  | 70, [t] => in_not_in t_name t tb ta                                        (* TYPE_ADDED *)
+  | 50, [d] => in_not_in d_name d da db                                        (* DIRECTIVE_REMOVED *)
+  | 73, [d] => in_not_in d_name d db da                                        (* DIRECTIVE_ADDED *)
+  | 11, [t] => T t ta tb (fun x y => negb (t_kind x =? t_kind y))              (* TYPE_CHANGED_KIND *)
+  | 30, [t; f] => T t ta tb (fun x y =>                                        (* FIELD_REMOVED *)
+                    in_not_in f_name f (t_fields x) (t_fields y) || in_not_in a_name f (t_inputs x) (t_inputs y))
+  | 74, [t; f] => T t ta tb (fun x y => in_not_in f_name f (t_fields y) (t_fields x))     (* FIELD_ADDED *)
+  | 21, [t; v] => T t ta tb (fun x y => in_not_in e_name v (t_values x) (t_values y))     (* VALUE_REMOVED_FROM_ENUM *)
+  | 60, [t; v] => T t ta tb (fun x y => in_not_in e_name v (t_values y) (t_values x))     (* VALUE_ADDED_TO_ENUM *)
+  | 20, [t; m] => T t ta tb (fun x y => in_not_in idn m (t_members x) (t_members y))      (* TYPE_REMOVED_FROM_UNION *)
+  | 61, [t; m] => T t ta tb (fun x y => in_not_in idn m (t_members y) (t_members x))      (* TYPE_ADDED_TO_UNION *)
+  | 23, [t; i] => T t ta tb (fun x y => in_not_in idn i (t_ifaces x) (t_ifaces y))        (* IMPLEMENTED_INTERFACE_REMOVED *)
+  | 64, [t; i] => T t ta tb (fun x y => in_not_in idn i (t_ifaces y) (t_ifaces x))        (* IMPLEMENTED_INTERFACE_ADDED *)
+  | 22, [t; f] | 62, [t; f] =>                                                 (* REQUIRED/OPTIONAL_INPUT_FIELD_ADDED *)
+      T t ta tb (fun x y => in_not_in a_name f (t_inputs y) (t_inputs x))
+  | 31, [t; f] | 78, [t; f] =>                                                 (* FIELD_CHANGED_KIND(_SAFE) *)
+      T t ta tb (fun x y =>
+        with2 f_name f (t_fields x) (t_fields y) (fun p q => negb (tref_eqb (f_type p) (f_type q)))
+        || with2 a_name f (t_inputs x) (t_inputs y) (fun p q => negb (tref_eqb (a_type p) (a_type q))))
+  | 41, [t; f; g] =>                                                           (* ARG_REMOVED *)
+      T t ta tb (fun x y => with2 f_name f (t_fields x) (t_fields y) (fun p q =>
+        in_not_in a_name g (f_args p) (f_args q)))
+  | 40, [t; f; g] | 63, [t; f; g] =>                                           (* REQUIRED/OPTIONAL_ARG_ADDED *)
+      T t ta tb (fun x y => with2 f_name f (t_fields x) (t_fields y) (fun p q =>
+        in_not_in a_name g (f_args q) (f_args p)))
+  | 42, [t; f; g] | 79, [t; f; g] | 65, [t; f; g] | 80, [t; f; g] | 81, [t; f; g] =>  (* argument of a field changed *)
+      T t ta tb (fun x y => with2 f_name f (t_fields x) (t_fields y) (fun p q =>
+        with2 a_name g (f_args p) (f_args q) (arg_witness (c_kind c))))
+  | 42, [d; g] | 79, [d; g] | 65, [d; g] | 80, [d; g] =>                         (* argument of a directive changed *)
+      with2 d_name d da db (fun o n => with2 a_name g (d_args o) (d_args n) (arg_witness (c_kind c)))
+  | 51, [d; g] => with2 d_name d da db (fun o n => in_not_in a_name g (d_args o) (d_args n))   (* DIRECTIVE_ARG_REMOVED *)
+  | 52, [d; g] | 77, [d; g] =>                                                 (* REQUIRED/OPTIONAL_DIRECTIVE_ARG_ADDED *)
+      with2 d_name d da db (fun o n => in_not_in a_name g (d_args n) (d_args o))
+  | 53, [d] => with2 d_name d da db (fun o n => d_repeatable o && negb (d_repeatable n))
+  | 75, [d] => with2 d_name d da db (fun o n => d_repeatable n && negb (d_repeatable o))
+  | 54, [d; l] => with2 d_name d da db (fun o n => mem_name l (d_locs o) && negb (mem_name l (d_locs n)))
+  | 76, [d; l] => with2 d_name d da db (fun o n => mem_name l (d_locs n) && negb (mem_name l (d_locs o)))
+  | 81, [t] =>                                                                 (* DESCRIPTION_CHANGED: type / directive *)
+      T t ta tb (fun x y => negb (otext_eqb (t_desc x) (t_desc y)))
+      || with2 d_name t da db (fun o n => negb (otext_eqb (d_desc o) (d_desc n)))
+  | 81, [t; f] =>                                (* field / input field / enum value / directive argument *)
+      T t ta tb (fun x y =>
+        with2 f_name f (t_fields x) (t_fields y) (fun p q => negb (otext_eqb (f_desc p) (f_desc q)))
+        || with2 a_name f (t_inputs x) (t_inputs y) (fun p q => negb (otext_eqb (a_desc p) (a_desc q)))
+        || with2 e_name f (t_values x) (t_values y) (fun p q => negb (otext_eqb (e_desc p) (e_desc q))))
+      || with2 d_name t da db (fun o n => with2 a_name f (d_args o) (d_args n) (arg_witness 81))
+  | _, _ => false
+  end.
+
+(* ---- proofs *)
 Lemma in_absent {A} (key : A -> name) x l other :
   In x (absent key key l other) -> in_not_in key (key x) l other = true.
 Proof.
@@ -48,88 +100,121 @@ Proof.
   apply in_absent. exact Hx.
 Qed.
 
-Lemma desc_change_kind p a b c : In c (desc_change p a b) -> c_kind c = DESCRIPTION_CHANGED.
-Proof. unfold desc_change. destruct (otext_eqb a b); cbn; [contradiction|]. intros [<-|[]]. reflexivity. Qed.
-
-(* the kinds whose witness is not constrained *)
-Definition free_kind (k : N) : bool :=
-  match k with
-  | 10 | 70 | 50 | 73 | 11 | 30 | 74 | 21 | 60 | 20 | 61 | 23 | 64 | 22 | 62 => false
-  | _ => true
-  end.
-
-Lemma witness_free c a b : free_kind (c_kind c) = true -> witness c a b = true.
+Lemma desc_change_in p a b c :
+  In c (desc_change p a b) -> c = mkChange DESCRIPTION_CHANGED p /\ otext_eqb a b = false.
 Proof.
-  unfold witness, free_kind. destruct (c_kind c) as [|p]; [reflexivity|].
-  do 7 (destruct p as [p|p|]; try reflexivity; try discriminate).
+  unfold desc_change. destruct (otext_eqb a b); cbn; [contradiction|]. intros [<-|[]]. auto.
 Qed.
 
-Section Sound.
-Variable leb : name -> name -> bool.
+(* a persisted pair is found under its name in both containers *)
+Lemma persisted_with2 {A} (key : A -> name) o n l l' (f : A -> A -> bool) :
+  NoDup (map key l) -> In (o, n) (persisted key l l') -> with2 key (key o) l l' f = f o n.
+Proof.
+  intros Hnd H. apply persisted_in in H. destruct H as [Hin Hf].
+  unfold with2. rewrite (find_by_in key o l Hnd Hin), Hf. reflexivity.
+Qed.
 
-Lemma arg_pair_free p o n c : In c (arg_pair_changes leb p o n) -> free_kind (c_kind c) = true.
+Lemma safe_in_false_neq o n : safe_in o n = false -> tref_eqb o n = false.
+Proof.
+  intro H. destruct (tref_eqb o n) eqn:E; [|reflexivity].
+  assert (o = n).
+  { clear H. revert n E. induction o; intros [] E; cbn in E; try discriminate;
+      [apply text_eqb_true in E; congruence | f_equal; auto | f_equal; auto]. }
+  subst. rewrite safe_in_refl in H. discriminate.
+Qed.
+
+Lemma safe_out_false_neq o n : safe_out o n = false -> tref_eqb o n = false.
+Proof.
+  intro H. destruct (tref_eqb o n) eqn:E; [|reflexivity].
+  assert (o = n).
+  { clear H. revert n E. induction o; intros [] E; cbn in E; try discriminate;
+      [apply text_eqb_true in E; congruence | f_equal; auto | f_equal; auto]. }
+  subst. rewrite safe_out_refl in H. discriminate.
+Qed.
+
+(* changes of a persisted argument pair: kind, path and witness *)
+Lemma arg_pair_in p o n c :
+  In c (arg_pair_changes leb p o n) ->
+  c_path c = p ++ [a_name o] /\ arg_witness (c_kind c) o n = true
+  /\ (c_kind c = 42 \/ c_kind c = 79 \/ c_kind c = 65 \/ c_kind c = 80 \/ c_kind c = 81).
 Proof.
   unfold arg_pair_changes. intro H. apply in_app_or in H. destruct H as [H|H].
-  - destruct (negb (safe_in (a_type o) (a_type n))).
-    + destruct H as [<-|[]]. reflexivity.
-    + destruct (a_default o), (a_default n); try (destruct H as [<-|[]]; reflexivity).
-      * destruct (default_eqb leb v v0); [contradiction|destruct H as [<-|[]]; reflexivity].
-      * destruct (tref_eqb (a_type o) (a_type n)); [contradiction|destruct H as [<-|[]]; reflexivity].
-  - rewrite (desc_change_kind _ _ _ _ H). reflexivity.
+  - destruct (safe_in (a_type o) (a_type n)) eqn:Es; cbn [negb] in H.
+    + destruct (a_default o) as [x|] eqn:Eo, (a_default n) as [y|] eqn:En.
+      * destruct (default_eqb leb x y) eqn:Ed; [contradiction|]. destruct H as [<-|[]].
+        split; [reflexivity|]. split; [cbn; rewrite Eo, En, Ed; reflexivity|auto 8].
+      * destruct H as [<-|[]].
+        split; [reflexivity|]. split; [cbn; rewrite Eo, En; reflexivity|auto 8].
+      * destruct H as [<-|[]].
+        split; [reflexivity|]. split; [cbn; rewrite Eo, En; reflexivity|auto 8].
+      * destruct (tref_eqb (a_type o) (a_type n)) eqn:Et; [contradiction|]. destruct H as [<-|[]].
+        split; [reflexivity|]. split; [cbn; rewrite Et; reflexivity|auto 8].
+    + destruct H as [<-|[]].
+      split; [reflexivity|]. split; [cbn; rewrite (safe_in_false_neq _ _ Es); reflexivity|auto 8].
+  - apply desc_change_in in H. destruct H as [-> Hd].
+    split; [reflexivity|]. split; [cbn; rewrite Hd; reflexivity|auto 8].
 Qed.
 
-Lemma in_flat_map_pairs {A} (f : A * A -> list change) l c :
-  In c (flat_map f l) -> exists p, In p l /\ In c (f p).
-Proof. intro H. apply in_flat_map in H. exact H. Qed.
+Lemma with2_ext {A} (key : A -> name) n l l' (f g : A -> A -> bool) :
+  (forall x y, f x y = g x y) -> with2 key n l l' f = with2 key n l l' g.
+Proof. intro H. unfold with2. destruct (find_by key n l), (find_by key n l'); auto. Qed.
 
-Lemma field_arg_free p o n c : In c (field_arg_changes leb p o n) -> free_kind (c_kind c) = true.
+Section Types.
+Variables a b : schema.
+Hypothesis Hwf : wf a.
+
+(* x / y : a persisted pair of types *)
+Variables x y : typedef.
+Hypothesis Hx : find_by t_name (t_name x) (s_types a) = Some x.
+Hypothesis Hy : find_by t_name (t_name x) (s_types b) = Some y.
+Hypothesis Wx : wf_type x.
+
+Lemma WT f : with2 t_name (t_name x) (s_types a) (s_types b) f = f x y.
+Proof. unfold with2. rewrite Hx, Hy. reflexivity. Qed.
+
+Lemma field_pair_sound o n c :
+  In (o, n) (persisted f_name (t_fields x) (t_fields y)) ->
+  In c (field_pair_changes leb (t_name x) o n) -> witness c a b = true.
 Proof.
-  unfold field_arg_changes. intro H.
-  apply in_app_or in H. destruct H as [H|H].
-  - apply in_map_iff in H. destruct H as [x [<- _]]. reflexivity.
+  intros Hp H. destruct Wx as (Wf & Wff & _ & _).
+  assert (Wo : wf_field o).
+  { apply persisted_in in Hp. destruct Hp as [Hin _]. rewrite Forall_forall in Wff. apply Wff. exact Hin. }
+  assert (WF : forall f, with2 f_name (f_name o) (t_fields x) (t_fields y) f = f o n)
+    by (intro f; apply persisted_with2; assumption).
+  unfold field_pair_changes in H. apply in_app_or in H. destruct H as [H|H].
+  - (* arguments *)
+    unfold field_arg_changes in H. apply in_app_or in H. destruct H as [H|H].
+    + apply in_map_absent in H. destruct H as [g [-> Hg]]. unfold witness; cbn. rewrite WT, WF. exact Hg.
+    + apply in_app_or in H. destruct H as [H|H].
+      * apply in_flat_map in H. destruct H as [[ao an] [Hpa H]].
+        destruct (arg_pair_in _ _ _ _ H) as (Hpath & Hw & Hk). cbn in H.
+        assert (WA : forall f, with2 a_name (a_name ao) (f_args o) (f_args n) f = f ao an)
+          by (intro f; apply persisted_with2; assumption).
+        unfold witness. rewrite Hpath. cbn [app fst snd].
+        destruct Hk as [Hk|[Hk|[Hk|[Hk|Hk] ] ] ]; rewrite Hk in *; cbn; rewrite WT, WF, WA; exact Hw.
+      * apply in_map_absent in H. destruct H as [g [-> Hg]].
+        destruct (required g); unfold witness; cbn; rewrite WT, WF; exact Hg.
   - apply in_app_or in H. destruct H as [H|H].
-    + apply in_flat_map in H. destruct H as [pr [_ H]]. eapply arg_pair_free; exact H.
-    + apply in_map_iff in H. destruct H as [x [<- _]]. destruct (required x); reflexivity.
+    + destruct (safe_out (f_type o) (f_type n)) eqn:Es; cbn [negb] in H.
+      * destruct (tref_eqb (f_type o) (f_type n)) eqn:Et; [contradiction|]. destruct H as [<-|[]].
+        unfold witness; cbn. rewrite WT, WF, Et. reflexivity.
+      * destruct H as [<-|[]]. unfold witness; cbn. rewrite WT, WF, (safe_out_false_neq _ _ Es). reflexivity.
+    + apply desc_change_in in H. destruct H as [-> Hd]. unfold witness; cbn. rewrite WT, WF, Hd. reflexivity.
 Qed.
 
-Lemma field_pair_free tn o n c : In c (field_pair_changes leb tn o n) -> free_kind (c_kind c) = true.
+Lemma type_pair_sound c : In c (type_pair_changes leb x y) -> witness c a b = true.
 Proof.
-  unfold field_pair_changes. intro H.
-  apply in_app_or in H. destruct H as [H|H]; [eapply field_arg_free; exact H|].
+  intro H. unfold type_pair_changes in H. destruct Wx as (Wf & Wff & Wv & Wi).
   apply in_app_or in H. destruct H as [H|H].
-  - destruct (negb (safe_out (f_type o) (f_type n))).
-    + destruct H as [<-|[]]. reflexivity.
-    + destruct (tref_eqb (f_type o) (f_type n)); [contradiction|destruct H as [<-|[]]; reflexivity].
-  - rewrite (desc_change_kind _ _ _ _ H). reflexivity.
-Qed.
-
-Lemma input_pair_free tn o n c : In c (input_pair_changes tn o n) -> free_kind (c_kind c) = true.
-Proof.
-  unfold input_pair_changes. intro H. apply in_app_or in H. destruct H as [H|H].
-  - destruct (negb (safe_in (a_type o) (a_type n))).
-    + destruct H as [<-|[]]. reflexivity.
-    + destruct (tref_eqb (a_type o) (a_type n)); [contradiction|destruct H as [<-|[]]; reflexivity].
-  - rewrite (desc_change_kind _ _ _ _ H). reflexivity.
-Qed.
-
-(* changes of a persisted pair of types x (old) / y (new), both found under the name of x *)
-Lemma type_pair_sound a b x y c :
-  find_by t_name (t_name x) (s_types a) = Some x ->
-  find_by t_name (t_name x) (s_types b) = Some y ->
-  In c (type_pair_changes leb x y) -> witness c a b = true.
-Proof.
-  intros Hx Hy H. unfold type_pair_changes in H.
-  assert (WT : forall f, with_types a b (t_name x) f = f x y).
-  { intro f. unfold with_types. rewrite Hx, Hy. reflexivity. }
-  apply in_app_or in H. destruct H as [H|H].
-  { apply witness_free. rewrite (desc_change_kind _ _ _ _ H). reflexivity. }
+  { apply desc_change_in in H. destruct H as [-> Hd]. unfold witness; cbn. rewrite WT, Hd. reflexivity. }
   destruct ((t_kind x =? 4) && (t_kind y =? 4)).
   { unfold enum_changes in H. apply in_app_or in H. destruct H as [H|H].
     - apply in_map_absent in H. destruct H as [v [-> Hv]]. unfold witness; cbn. rewrite WT. exact Hv.
     - apply in_app_or in H. destruct H as [H|H].
       + apply in_map_absent in H. destruct H as [v [-> Hv]]. unfold witness; cbn. rewrite WT. exact Hv.
-      + apply in_flat_map in H. destruct H as [pr [_ H]]. apply witness_free.
-        rewrite (desc_change_kind _ _ _ _ H). reflexivity. }
+      + apply in_flat_map in H. destruct H as [[vo vn] [Hp H]]. cbn in H.
+        apply desc_change_in in H. destruct H as [-> Hd]. unfold witness; cbn. rewrite WT.
+        rewrite (persisted_with2 e_name vo vn _ _ _ Wv Hp), Hd. cbn. rewrite !orb_true_r. reflexivity. }
   destruct ((t_kind x =? 3) && (t_kind y =? 3)).
   { unfold union_changes in H. apply in_app_or in H. destruct H as [H|H];
       apply in_map_absent in H; destruct H as [v [-> Hv]]; unfold witness; cbn; rewrite WT; exact Hv. }
@@ -140,8 +225,16 @@ Proof.
     - apply in_app_or in H. destruct H as [H|H].
       + apply in_map_absent in H. destruct H as [v [-> Hv]]. unfold witness; cbn. rewrite WT.
         rewrite Hv. apply orb_true_r.
-      + apply in_flat_map in H. destruct H as [pr [_ H]]. apply witness_free.
-        eapply input_pair_free; exact H. }
+      + apply in_flat_map in H. destruct H as [[io inn] [Hp H]]. cbn in H.
+        assert (WI : forall f, with2 a_name (a_name io) (t_inputs x) (t_inputs y) f = f io inn)
+          by (intro f; apply persisted_with2; assumption).
+        unfold input_pair_changes in H. apply in_app_or in H. destruct H as [H|H].
+        * destruct (safe_in (a_type io) (a_type inn)) eqn:Es; cbn [negb] in H.
+          -- destruct (tref_eqb (a_type io) (a_type inn)) eqn:Et; [contradiction|]. destruct H as [<-|[]].
+             unfold witness; cbn. rewrite WT, WI, Et. apply orb_true_r.
+          -- destruct H as [<-|[]]. unfold witness; cbn. rewrite WT, WI, (safe_in_false_neq _ _ Es). apply orb_true_r.
+        * apply desc_change_in in H. destruct H as [-> Hd]. unfold witness; cbn. rewrite WT, WI, Hd. cbn.
+          rewrite orb_true_r. reflexivity. }
   destruct (((t_kind x =? 1) && (t_kind y =? 1)) || ((t_kind x =? 2) && (t_kind y =? 2))).
   { apply in_app_or in H. destruct H as [H|H].
     - unfold field_changes in H. apply in_app_or in H. destruct H as [H|H].
@@ -149,45 +242,64 @@ Proof.
         rewrite Hv. reflexivity.
       + apply in_app_or in H. destruct H as [H|H].
         * apply in_map_absent in H. destruct H as [v [-> Hv]]. unfold witness; cbn. rewrite WT. exact Hv.
-        * apply in_flat_map in H. destruct H as [pr [_ H]]. apply witness_free.
-          eapply field_pair_free; exact H.
+        * apply in_flat_map in H. destruct H as [[fo fn] [Hp H]]. cbn in H.
+          eapply field_pair_sound; eassumption.
     - unfold iface_changes in H. apply in_app_or in H. destruct H as [H|H];
         apply in_map_absent in H; destruct H as [v [-> Hv]]; unfold witness; cbn; rewrite WT; exact Hv. }
   destruct (t_kind x =? t_kind y) eqn:E; [contradiction|].
   destruct H as [<-|[]]. unfold witness; cbn. rewrite WT, E. reflexivity.
 Qed.
+End Types.
 
-Lemma directive_pair_free o n c : In c (directive_pair_changes leb o n) -> free_kind (c_kind c) = true.
+Lemma directive_pair_sound a b o n c :
+  NoDup (map d_name (s_directives a)) -> wf_dir o ->
+  In (o, n) (persisted d_name (s_directives a) (s_directives b)) ->
+  In c (directive_pair_changes leb o n) -> witness c a b = true.
 Proof.
-  unfold directive_pair_changes. intro H.
+  intros Hnd Wo Hp H.
+  assert (WD : forall f, with2 d_name (d_name o) (s_directives a) (s_directives b) f = f o n)
+    by (intro f; apply persisted_with2; assumption).
+  unfold directive_pair_changes in H.
   repeat (apply in_app_or in H; destruct H as [H|H]).
-  - apply in_map_iff in H. destruct H as [x [<- _]]. destruct (required x); reflexivity.
-  - apply in_map_iff in H. destruct H as [x [<- _]]. reflexivity.
-  - apply in_flat_map in H. destruct H as [pr [_ H]]. eapply arg_pair_free; exact H.
-  - destruct (d_repeatable o && negb (d_repeatable n)); [destruct H as [<-|[]]; reflexivity|].
-    destruct (d_repeatable n && negb (d_repeatable o)); [destruct H as [<-|[]]; reflexivity|contradiction].
-  - rewrite (desc_change_kind _ _ _ _ H). reflexivity.
-  - apply in_map_iff in H. destruct H as [x [<- _]]. reflexivity.
-  - apply in_map_iff in H. destruct H as [x [<- _]]. reflexivity.
+  - apply in_map_absent in H. destruct H as [g [-> Hg]].
+    destruct (required g); unfold witness; cbn; rewrite WD; exact Hg.
+  - apply in_map_absent in H. destruct H as [g [-> Hg]]. unfold witness; cbn. rewrite WD. exact Hg.
+  - apply in_flat_map in H. destruct H as [[ao an] [Hpa H]]. cbn in H.
+    destruct (arg_pair_in _ _ _ _ H) as (Hpath & Hw & Hk).
+    assert (WA : forall f, with2 a_name (a_name ao) (d_args o) (d_args n) f = f ao an)
+      by (intro f; apply persisted_with2; assumption).
+    unfold witness. rewrite Hpath. cbn [app].
+    destruct Hk as [Hk|[Hk|[Hk|[Hk|Hk] ] ] ]; rewrite Hk in *; cbn; rewrite WD, WA; try exact Hw.
+    rewrite Hw. apply orb_true_r.
+  - destruct (d_repeatable o && negb (d_repeatable n)) eqn:E1.
+    + destruct H as [<-|[]]. unfold witness; cbn. rewrite WD. exact E1.
+    + destruct (d_repeatable n && negb (d_repeatable o)) eqn:E2; [|contradiction].
+      destruct H as [<-|[]]. unfold witness; cbn. rewrite WD. exact E2.
+  - apply desc_change_in in H. destruct H as [-> Hd]. unfold witness; cbn. rewrite WD, Hd. apply orb_true_r.
+  - apply in_map_iff in H. destruct H as [l [<- Hl]]. apply filter_In in Hl. destruct Hl as [Hin Hn].
+    unfold witness; cbn. rewrite WD, (mem_name_in l (d_locs o) Hin), Hn. reflexivity.
+  - apply in_map_iff in H. destruct H as [l [<- Hl]]. apply filter_In in Hl. destruct Hl as [Hin Hn].
+    unfold witness; cbn. rewrite WD, (mem_name_in l (d_locs n) Hin), Hn. reflexivity.
 Qed.
 
-Theorem diff_sound a b c :
-  NoDup (map t_name (s_types a)) -> In c (diff leb a b) -> witness c a b = true.
+Theorem diff_sound a b c : wf a -> In c (diff leb a b) -> witness c a b = true.
 Proof.
-  intros Hnd H. unfold diff in H. apply in_app_or in H. destruct H as [H|H].
+  intros (Wt & Wtt & Wd & Wdd) H. unfold diff in H. apply in_app_or in H. destruct H as [H|H].
   - unfold type_changes in H. apply in_app_or in H. destruct H as [H|H].
     + apply in_map_absent in H. destruct H as [t [-> Ht]]. exact Ht.
     + apply in_app_or in H. destruct H as [H|H].
       * apply in_map_absent in H. destruct H as [t [-> Ht]]. exact Ht.
       * apply in_flat_map in H. destruct H as [[x y] [Hp H]].
         apply persisted_in in Hp. destruct Hp as [Hin Hy].
-        apply (type_pair_sound a b x y c); [apply find_by_in; assumption|exact Hy|exact H].
+        apply (type_pair_sound a b x y); [apply find_by_in; assumption|exact Hy| |exact H].
+        rewrite Forall_forall in Wtt. apply Wtt. exact Hin.
   - unfold directive_changes in H. apply in_app_or in H. destruct H as [H|H].
     + apply in_map_absent in H. destruct H as [t [-> Ht]]. exact Ht.
     + apply in_app_or in H. destruct H as [H|H].
       * apply in_map_absent in H. destruct H as [t [-> Ht]]. exact Ht.
-      * apply in_flat_map in H. destruct H as [[x y] [_ H]]. apply witness_free.
-        eapply directive_pair_free; exact H.
+      * apply in_flat_map in H. destruct H as [[o n] [Hp H]].
+        apply (directive_pair_sound a b o n c Wd); [|exact Hp|exact H].
+        apply persisted_in in Hp. destruct Hp as [Hin _]. rewrite Forall_forall in Wdd. apply Wdd. exact Hin.
 Qed.
 
-End Sound.
+End Witness.
